@@ -678,7 +678,20 @@ func constCond(v ssa.Value) (val, known bool) {
 	case *ssa.BinOp:
 		a, ok1 := x.X.(*ssa.Const)
 		b, ok2 := x.Y.(*ssa.Const)
-		if !ok1 || !ok2 || a.Value == nil || b.Value == nil {
+		if !ok1 || !ok2 {
+			return false, false
+		}
+		if a.IsNil() && b.IsNil() {
+			// `nil != nil`: an error result known to be nil where an inlined helper returned, tested by the caller
+			switch x.Op {
+			case token.EQL:
+				return true, true
+			case token.NEQ:
+				return false, true
+			}
+			return false, false
+		}
+		if a.Value == nil || b.Value == nil {
 			return false, false
 		}
 		switch x.Op {
